@@ -266,6 +266,8 @@ class BuiltinMixin:
         if not args and not kwargs:
             return SV(CONST, None, Const({}))
         (v,) = args
+        if isinstance(v.t, TConst) and isinstance(v.extra, tuple) and v.extra[0] == "dictitems":
+            return v.extra[1]  # dict(d.items()): a copy of d (dict values are immutable values in this model)
         v = self.reify(v) if isinstance(v.t, TConst) else v
         if isinstance(v.t, TList):
             if v.t.elem is None:
@@ -320,6 +322,13 @@ class BuiltinMixin:
 
     def bi_tuple(self, args, kwargs, st, node):
         return self.bi_list(args, kwargs, st, node)
+
+    def bi_getattr(self, args, kwargs, st, node):
+        """getattr(obj, "name"[, default]) with a literal name of a DECLARED field or method of obj's class:
+        the attribute then always exists, so the default is never used."""
+        if len(args) not in (2, 3) or args[1].const is None or not isinstance(args[1].const.v, str):
+            raise EngineError("getattr with a non-literal name is not modelled")
+        return self.getattr(args[0], args[1].const.v, st, node)
 
     def bi_hasattr(self, args, kwargs, st, node):
         raise EngineError("hasattr is not modelled")
